@@ -45,6 +45,7 @@ func main() {
 	fs.StringVar(&o.dumpDir, "dump", "", "write every query to this directory")
 	fs.BoolVar(&o.noReplay, "no-replay", false, "do not run replays")
 	fs.BoolVar(&o.noBounded, "no-bounded", false, "do not run the bounded checks registered in contracts")
+	fs.BoolVar(&o_noClosure, "no-closure", false, "check only the functions tagged with the property, not the callees their proofs rely on")
 	fs.BoolVar(&o.noEvidence, "no-evidence", false, "do not (re)write the evidence file (used when checking deliberately broken trees)")
 	fs.StringVar(&o.only, "only", "", "only obligations whose name contains this string")
 	var args []string
@@ -141,14 +142,30 @@ type funcInfo struct {
 	Hash    string `json:"source_sha256_prefix"`
 	Obls    int    `json:"obligations"`
 	Trusted bool   `json:"trusted,omitempty"`
+	Via     string `json:"included_because,omitempty"`
 }
+
+// o_noClosure: development switch (--no-closure): check only the functions tagged with the property.
+var o_noClosure bool
 
 // generate builds all obligations of a property from the program.
 func generate(p *Prog, prop string) *checkResult {
 	cr := &checkResult{prop: prop, assumed: map[string]bool{}, abstracted: map[string]bool{}, contractsUsed: map[string]bool{}}
 	start := time.Now()
 	keys := p.contractedFuncsFor(prop)
-	for _, key := range keys {
+	for _, r := range p.renamed {
+		cr.abstracted["renamed since the contracts were written (bridged through contracts/signatures.json): "+r] = true
+	}
+	// The argument for a property is modular: a function proved for it relies on the contracts of the functions it
+	// calls, so those callees' own proofs belong to the argument too, whichever properties their contracts are tagged
+	// with. The set is closed under "calls by contract" (pulled[key] = the caller that brought the function in).
+	seen := map[string]bool{}
+	for _, k := range keys {
+		seen[k] = true
+	}
+	pulled := map[string]string{}
+	for ki := 0; ki < len(keys); ki++ {
+		key := keys[ki]
 		fc := p.cs.Funcs[key]
 		fkey := key
 		if fc.Variant != "" {
@@ -186,15 +203,30 @@ func generate(p *Prog, prop string) *checkResult {
 			continue
 		}
 		n := 0
+		_, isPulled := pulled[key]
 		for _, ob := range enc.obls {
-			if !obligationServes(ob, fc, prop) {
+			if !isPulled && !obligationServes(ob, fc, prop) {
 				continue
 			}
 			cr.obls = append(cr.obls, ob)
 			n++
 		}
 		src, h := p.funcSource(fn)
-		cr.funcs = append(cr.funcs, funcInfo{Key: sk, Source: src, Hash: h, Obls: n})
+		cr.funcs = append(cr.funcs, funcInfo{Key: sk, Source: src, Hash: h, Obls: n, Via: pulled[key]})
+		if prop != "" && !o_noClosure {
+			var more []string
+			for k := range enc.usedKeys {
+				if !seen[k] && p.cs.Funcs[k] != nil {
+					more = append(more, k)
+				}
+			}
+			sort.Strings(more)
+			for _, k := range more {
+				seen[k] = true
+				pulled[k] = "called by " + sk
+				keys = append(keys, k)
+			}
+		}
 		for k := range enc.assumed {
 			cr.assumed[k] = true
 		}
@@ -457,6 +489,9 @@ func dischargeSet(obls []*Obligation, o *options) float64 {
 						}
 					}
 				}
+				if ob.Status == "cover-failed" && strings.Contains(ob.Name, "/COVER.block") {
+					defensiveDeadCode(ob, to)
+				}
 				return
 			}
 			if res.Answer == "unsat" {
@@ -477,6 +512,37 @@ func dischargeSet(obls []*Obligation, o *options) float64 {
 	}
 	wg.Wait()
 	return time.Since(start).Seconds()
+}
+
+// defensiveDeadCode: a block that no execution reaches is reported (its obligations hold vacuously, and contradictory
+// assumptions would show up exactly like this) unless it is unreachable for the plain reason that its branch condition
+// contradicts the function's own precondition: a defensive check (`if p == nil { return }` under `requires p != nil`)
+// that no caller meeting the precondition can trigger. That is decided by asking again with everything learned after
+// entry from contracts left out (callee postconditions, loop invariants, proved-then-assumed obligations): if the block
+// is still unreachable, only the entry assumptions and the code's own conditions make it so.
+func defensiveDeadCode(ob *Obligation, to int) {
+	if ob.Script == nil {
+		return
+	}
+	ex := map[int]bool{}
+	for k, v := range ob.excluded {
+		ex[k] = v
+	}
+	for i, a := range ob.Script.Asserts {
+		for _, pre := range []string{"; ensures of", "; closure invariant of", "; onpanic of", "; assume loop", "; assumed after obligation", "; ASSUMED", "; receive on a closes-only"} {
+			if strings.HasPrefix(a, pre) {
+				ex[i] = true
+			}
+		}
+	}
+	q := ob.Script.QueryExcluding(ob.Goal, false, ob.cutDecls, ob.cutAsserts, ex)
+	r, _ := Solve(q, "quick", to, ob.Name+".entry-only")
+	if r.Answer == "unsat" {
+		ob.Status = "cover-ok"
+		r.Solver += "+unreachable-under-the-precondition"
+		r.Answer = "dead-code"
+		ob.Result = r
+	}
 }
 
 func cmdCheck(prop string, o *options) int {
@@ -701,7 +767,8 @@ func report(p *Prog, cr *checkResult, o *options, wall float64) int {
 		violations++
 		exit = 1
 		path := writeReplayFile(o, cr.prop, br.Name, map[string]any{"property": cr.prop, "obligation": br.Name, "class": "BOUNDED",
-			"description": "bounded check of the real code: " + br.Bound, "status": br.Status, "failing_input": br.Summary, "cmd": br.Cmd, "output": br.Output})
+			"description": "bounded check of the real code: " + br.Bound, "status": br.Status, "failing_input": br.Summary, "cmd": br.Cmd, "output": br.Output,
+			"driver": br.Driver, "tier": o.tier})
 		fmt.Printf("FAILED %s (bounded run of the real code: %s) %s\n", br.Name, br.Status, br.Summary)
 		if br.Status == "violated" {
 			fmt.Printf("VIOLATION property=%s replay=%s\n", cr.prop, path)
